@@ -9,7 +9,9 @@
 (*                          environment's choices (cuts, answers), the        *)
 (*                          code-shaped expectation and the invariants the    *)
 (*                          model predicts to be violated (leads).            *)
-(*  StreamCli_sim.cfg       the same for `-simulate` (three cuts).            *)
+(*                          gen1: every single-cut behaviour; gen2 / gen3:    *)
+(*                          every two- / three-cut behaviour of reduced       *)
+(*                          configurations; gen1L: the 13-event stream.       *)
 EXTENDS StreamCli, Json
 
 Viol == {nm \in {"ExactlyOnceInOrder", "NoTruncatedSurfaced", "ResumeCursor", "RealResponseWithinBudget", "CleanFailure"} :
